@@ -153,6 +153,21 @@ def locate_statements():
             break
     if not got:
         missing.append("Connection.serve:s0")
+    # Connection.poll_all: `<name> = Timeout(<name>)` and `if <name>.expired(): break`
+    node, off = _func_ast(Connection.poll_all)
+    got = set()
+    for st in ast.walk(node):
+        if isinstance(st, ast.Assign) and isinstance(st.value, ast.Call) and isinstance(st.value.func, ast.Name) \
+                and st.value.func.id == "Timeout" and isinstance(st.targets[0], ast.Name) and "q0" not in got:
+            put(Connection.poll_all, st.lineno, off, "q0", ("local", st.targets[0].id))
+            got.add("q0")
+        if isinstance(st, ast.If) and "q1" not in got:
+            names = [n.func.value.id for n in ast.walk(st.test) if isinstance(n, ast.Call) and isinstance(n.func, ast.Attribute)
+                     and n.func.attr == "expired" and isinstance(n.func.value, ast.Name)]
+            if names:
+                put(Connection.poll_all, st.lineno, off, "q1", ("prelocal", names[0]))
+                got.add("q1")
+    missing += ["Connection.poll_all:" + x for x in ("q0", "q1") if x not in got]
     # BgServingThread._bg_server: the loop test
     node, off = _func_ast(BgServingThread._bg_server)
     loops = [st for st in ast.walk(node) if isinstance(st, ast.While)]
@@ -163,7 +178,8 @@ def locate_statements():
         missing.append("BgServingThread._bg_server:b0")
     targets = set(marks)
     for fn in (Connection.serve, Connection._dispatch, Connection._seq_request_callback, Connection._async_request,
-               Connection.async_request, Connection._get_seq_id, Connection.sync_request, AsyncResult.wait,
+               Connection.async_request, Connection._get_seq_id, Connection.sync_request, Connection.poll,
+               Connection.poll_all, AsyncResult.ready.fget, AsyncResult.wait,
                AsyncResult.__call__, AsyncResult.set_expiry, fget, BgServingThread._bg_server):
         targets.add(fn.__code__)
     return marks, targets, missing
@@ -297,6 +313,9 @@ class Sched:
                         self.log(th, "b0")
                     else:
                         self.log_env("stop:%d" % th.tid, "stop", th.tid, th)
+                elif isinstance(when, tuple) and when[0] == "prelocal":
+                    t = frame.f_locals.get(when[1])
+                    self.log(th, label, ("exit" if t.expired() else "loop") if isinstance(t, Timeout) else "?")
                 elif when == "pre":
                     self.log(th, label, self._observe_pre(label, frame))
                     if label == "d5":
@@ -336,7 +355,11 @@ class Sched:
             self.run.note_published(when[1])
         elif isinstance(when, tuple) and when[0] == "local":
             t = frame.f_locals.get(when[1])
-            self.log(th, "s0", fmt_t(t.tmax if t.finite else None) if isinstance(t, Timeout) else "?")
+            obs = fmt_t(t.tmax if t.finite else None) if isinstance(t, Timeout) else "?"
+            if label == "q0":
+                self.log_env("poll:%d:%s:%s" % (th.tid, fmt_t(self.run.current_poll.get(th.tid)), obs), "poll", (th.tid, obs), th)
+            else:
+                self.log(th, "s0", obs)
 
     def _body(self, th):
         self.local.th = th
@@ -481,6 +504,9 @@ class SCond:
         elif th.phase == "woken":
             th.phase = None
             s.log(th, "s2r")
+        elif th.phase == "s2fail":
+            th.phase = None
+            s.log(th, "s2f")
         else:
             s.log(th, "condrelease", th.phase)
             th.phase = None
@@ -677,7 +703,9 @@ class Run:
     case = dict(clients=[[tmo, tmo, ...], ...]   one list of calls (timeout or None) per client thread,
                 bg=bool, exc=[seqs answered with MSG_EXCEPTION], sleep=int (bg sleep interval, virtual units),
                 dup=[seqs whose reply the peer sends twice]  (oracle search only; outside the model))
-    Thread ids: clients 1..n, background thread n+1.
+                pollers=[[d | "ready", ...], ...]  one program per polling thread (conn.poll_all(d) / AsyncResult.ready),
+                eof=bool (the peer may close the stream), early_tick=bool
+    Thread ids: clients 1..n, polling threads n+1..n+m, background thread n+m+1.
     """
     HORIZON = 40           # virtual time units
     MAX_STEPS = 3000
@@ -695,6 +723,7 @@ class Run:
         self.cell_seq = {}
         self.cells = {}
         self.current_tmo = {}
+        self.current_poll = {}
         self.results = {}           # tid -> list of (seq, outcome text, return time)
         self.completions = {}       # seq -> count of _is_ready stores
         self.choices = []           # (choice, enabled list, preempt?) per scheduling decision
@@ -834,6 +863,21 @@ class Run:
                 out.append((seq, text, s.now))
         return fn
 
+    def poller_fn(self, tid, program):
+        """a thread that receives through `conn.poll_all(d)` (item = d) or `AsyncResult.ready` (item = "ready", which is
+        poll_all(0) behind a private, never-registered result): serve(timeout, wait_for_lock=False)"""
+        conn = self.conn
+
+        def fn():
+            for item in program:
+                if item == "ready":
+                    self.current_poll[tid] = 0
+                    AsyncResult(conn).ready
+                else:
+                    self.current_poll[tid] = item
+                    conn.poll_all(item)
+        return fn
+
     def bg_fn(self, tid):
         bgt = BgServingThread.__new__(BgServingThread)
         bgt._conn = self.conn
@@ -882,9 +926,12 @@ class Run:
             n = len(self.case["clients"])
             for i, calls in enumerate(self.case["clients"]):
                 s.spawn(i + 1, self.client_fn(i + 1, calls))
+            pollers = self.case.get("pollers", [])
+            for j, program in enumerate(pollers):
+                s.spawn(n + 1 + j, self.poller_fn(n + 1 + j, program))
             bg_tid = None
             if self.case.get("bg"):
-                bg_tid = n + 1
+                bg_tid = n + len(pollers) + 1
                 s.spawn(bg_tid, self.bg_fn(bg_tid), is_bg=True)
             current = None
             while True:
